@@ -402,6 +402,21 @@ func (s *symFn) val1(v ssa.Value) *Sym {
 	case *ssa.Convert:
 		in := s.val(x.X)
 		from, to := kindOf(x.X.Type()), kindOf(x.Type())
+		// string <-> []rune counts in another unit (characters, not bytes): a test of len(s) says nothing about len([]rune(s))
+		isRunes := func(t types.Type) bool {
+			if sl, ok := t.Underlying().(*types.Slice); ok {
+				if b, ok := sl.Elem().Underlying().(*types.Basic); ok && b.Kind() == types.Int32 {
+					return true
+				}
+			}
+			return false
+		}
+		if isRunes(x.Type()) && from == "string" {
+			return &Sym{Op: "call", Name: "runes", Kids: []*Sym{in}, Kind: "list"}
+		}
+		if isRunes(x.X.Type()) && to == "string" {
+			return &Sym{Op: "call", Name: "stringOfRunes", Kids: []*Sym{in}, Kind: "string"}
+		}
 		if from == to || (from == "list" && to == "string") || (from == "string" && to == "list") {
 			return in
 		}
